@@ -32,6 +32,7 @@ pub fn c12_world_cfg() -> WorldCfg {
 		p_pois_coll: 20,
 		p_copy_permuted: 40,
 		p_zst_member: 12,
+		p_try_new_ref: 40,
 		p_own_member: 10,
 		max_members: 4,
 		allow_dups: false,
